@@ -439,6 +439,11 @@ def run_case(case, vector):
         if st["s"] == "derive":
             try:
                 w_ = derive(v, st["how"], st["a"])
+                if w_ is v:
+                    # a same-system conversion may return the vector itself (an identity shortcut is legitimate): that is
+                    # the target under another name, not a relative
+                    rels.append((None, None, None))
+                    continue
                 rels.append((w_, deepclone(w_), value_bits(w_)))
                 stats["relatives"] += 1
             except faults.CATCH as e:
